@@ -268,9 +268,11 @@ def _mk_cmd(attr, acc):
     export = _export(attr, acc)
     base_func = make(attr + '@base' if override else attr)
     over = make(attr) if override else None
-    if arg['t'] == 'none' and acc['ret'] == NULL and export is True and not override:
+    if arg['t'] == 'none' and acc['ret'] == NULL and export is True and not override and not acc.get('props'):
         return Command(base_func), None                # the bare decorator: @Command
-    kw = {'description': 'c', 'export': export}
+    pr = acc.get('props') or {}
+    kw = {'description': pr.get('description', 'c'), 'export': export}
+    kw.update({k: pr[k] for k in ('group', 'visibility') if k in pr})
     if acc['ret'] != NULL:
         from frappy.datatypes import IntRange
         kw['result'] = IntRange()
@@ -420,7 +422,9 @@ def build_class(accs, base='Module', feats=()):
                 body['D'][attr] = internal(dt, acc['init'])   # a bare value assigned in the derived class
         if acc.get('unit'):
             kw['unit'] = acc['unit']          # '$' stands for the unit of the module's value
-        body['B'][attr] = M.Parameter('p', build_dt(cl['dt']), **kw)
+        pr = acc.get('props') or {}
+        kw.update({k: pr[k] for k in ('group', 'visibility') if k in pr})
+        body['B'][attr] = M.Parameter(pr.get('description', 'p'), build_dt(cl['dt']), **kw)
         if acc.get('cls') and acc.get('via') == 'subclass':
             body['D'][attr] = M.Parameter(**_final_props(attr, acc))     # re-declared in the derived class
         if acc['drv'] != 'absent':
@@ -464,7 +468,8 @@ class SecNodeStub:
         self.export = []
         self.name = 'node'
         self.equipment_id = 'verif_node'
-        self.nodeprops = {'description': 'generated node'}
+        # node properties: only the description and those with a leading underscore belong into the report
+        self.nodeprops = {'description': 'generated node', '_custom': 'c1', 'internal': 'x'}
         self.log = log
 
     def add_module(self, module, modname):
@@ -516,7 +521,7 @@ class World:
     """real modules for the exported modules of `shape` plus an unexported module 'h'
     of the same class, a real dispatcher, one activated connection"""
 
-    def __init__(self, shape, bases=None, feats=None):
+    def __init__(self, shape, bases=None, feats=None, modprops=None):
         self.shape = shape
         self.srv = ServerStub()
         self.mods = {}
@@ -524,14 +529,14 @@ class World:
         for mname, accs in shape.items():
             cls = build_class(accs, (bases or {}).get(mname, 'Module'), (feats or {}).get(mname, ()))
             first = first or cls
-            self.mods[mname] = self._add(cls, mname, module_cfg(accs))
+            self.mods[mname] = self._add(cls, mname, dict(module_cfg(accs), **(modprops or {}).get(mname, {})))
         self.hidden = self._add(first, 'h', {'export': False})
         self.conn = Conn('c1', self.srv.dispatcher)
         handle(self.srv.dispatcher, self.conn, ('activate', None, None))
         del self.conn.msgs[:]
 
     def _add(self, cls, name, cfg):
-        obj = cls(name, LoggerStub(name), dict(cfg, description='d'), self.srv)
+        obj = cls(name, LoggerStub(name), dict({'description': 'd'}, **cfg), self.srv)
         obj.vlog = []
         self.srv.secnode.add_module(obj, name)
         return obj
